@@ -143,3 +143,8 @@ def run(ctx):
     PANTR.attach(ctx, extra_oracle=on_run)
     from vf.props import ZEROFPR
     ZEROFPR.attach(ctx, extra_oracle=on_run)
+    # the SHIPPED stacks (PANOC with LBFGS / StructuredLBFGS / Anderson / Noop providers inside the model): refinement of the oracle model + whole runs
+    from vf.props import PANOCDIR
+    PANOCDIR.attach(ctx, extra_oracle=on_run)
+    from vf.props import ZEROFPRDIR
+    ZEROFPRDIR.attach(ctx, extra_oracle=on_run)
